@@ -73,10 +73,10 @@ class C02(InputProp):
         self.parse = uparser.parse_string
         self.advtree = advtree
         self.dbs = {l: LangDB(l, {}) for l in LANGS}
-        fams = [Product(["en"], G.DocSpace(2, name="g2", variants=G.VARIANTS if tier != "quick" else ["plain", "html", "compact"]), name="docs"),
+        fams = [Product(["en"], G.DocSpace(2, name="g2", variants=G.VARIANTS if tier != "quick" else ["plain", "html", "compact", "tight"]), name="docs"),
                 Product(LANGS[1:], G.DocSpace(1, name="g1", variants=["plain", "compact"]), name="langs")]
         if tier == "quick":
-            fams.append(Product(["en"], G.DocSpace(3, name="g3", names=CORE, variants=["plain", "compact"]), name="docs3"))
+            fams.append(Product(["en"], G.DocSpace(3, name="g3", names=CORE, variants=["plain", "tight"]), name="docs3"))
         else:
             fams.append(Product(["en"], G.DocSpace(3, name="g3", variants=G.VARIANTS), name="docs3"))
         self.space = Concat(*fams)
